@@ -10,7 +10,10 @@ package main
 //       => M <ok|err:<class>|panic> ; D <0|1> ; VT <tile> ; U <outcome> ; G <same|outcome>
 //   id    : - | i:<kind>:<int> | u:<kind>:<nat> | f64:<bits> | f32:<bits> | s:<hstr> | o
 //   pval  : s:<hstr> | b:<0|1> | i:<kind>:<int> | u:<kind>:<nat> | f32:<bits> | f64:<bits> | nil
-//           | j:<shape>:<hstr json text> | jbad | x:<tag>
+//           | j:<shape>:<hstr json text> | jbad | x:<tag> | str:<type>:<hstr of String()>
+//           (shapes nilints / nilstrs / nilmapf are typed nil slices / maps: JSON text "null";
+//            str: a comparable fmt.Stringer value of Go type number <type>)
+//   <nP>  : a count, or "n" for a nil Properties map
 //   tile  : <nL> { <name> <version> <extent> <nK> <key>* <nV> <tval>* <nF> { <id|-> <type> <nT> <tag>* <nG> <word>* } }
 //   tval  : s:<hstr> | f:<bits32> | d:<bits64> | i:<int> | u:<nat> | z:<int> | b:<0|1> | e
 //   outcome: ok <nL> { <name> <version> <extent> <nF> { <idbits|-> <geom> <nP> { <key> <dval> } } } | err:<class> | panic
@@ -24,6 +27,8 @@ package main
 //       them, and what mvt.Unmarshal makes of them
 //   C03 wireh <hex|empty> => U <outcome>
 //       hostile / truncated / hand-built wire strings through mvt.Unmarshal (full outcome)
+//   C03 rawstr <hname> <hkey> <hval> => <class> <hname'> <hkey'> <hval'> <same|gzdiff> <D>
+//       raw byte strings (also non-UTF-8) as layer name, key and string value: what comes back
 
 import (
 	"bytes"
@@ -70,9 +75,10 @@ type c03Prop struct {
 }
 
 type c03Feat struct {
-	id    string
-	geom  orb.Geometry
-	props []c03Prop
+	id       string
+	geom     orb.Geometry
+	props    []c03Prop
+	nilProps bool // Properties is a nil map (token "n")
 }
 
 type c03Layer struct {
@@ -114,6 +120,19 @@ func c03UnsignedKind(kind string, v uint64) interface{} {
 }
 
 type c03Unsupported struct{ A int }
+
+// comparable fmt.Stringer values (encodeValue's second case); String() is injective on each type
+type c03StrA struct{ S string }
+
+func (s c03StrA) String() string { return s.S }
+
+type c03StrB struct{ S string }
+
+func (s c03StrB) String() string { return s.S }
+
+type c03StrInt int
+
+func (s c03StrInt) String() string { return strconv.Itoa(int(s)) }
 
 // c03Val rebuilds the Go property value from its token.
 func c03Val(tok string) interface{} {
@@ -171,6 +190,12 @@ func c03Val(tok string) interface{} {
 				panic(err)
 			}
 			v = x
+		case "nilints":
+			v = []int(nil)
+		case "nilstrs":
+			v = []string(nil)
+		case "nilmapf":
+			v = map[string]float64(nil)
 		default:
 			panic("bad json shape " + p[1])
 		}
@@ -179,6 +204,20 @@ func c03Val(tok string) interface{} {
 			panic("json token is not canonical: " + string(text) + " vs " + string(back))
 		}
 		return v
+	case "str":
+		text := c03UnH(p[2])
+		switch p[1] {
+		case "0":
+			return c03StrA{text}
+		case "1":
+			return c03StrB{text}
+		default:
+			n, err := strconv.Atoi(text)
+			if err != nil || strconv.Itoa(n) != text {
+				panic("stringer int token is not canonical: " + text)
+			}
+			return c03StrInt(n)
+		}
 	case "jbad":
 		return []interface{}{math.NaN()}
 	case "x":
@@ -240,7 +279,13 @@ func c03ParseLayers(r *tokReader) []c03Layer {
 			f := &ls[i].feats[j]
 			f.id = r.next()
 			f.geom = r.geom()
-			np := r.int()
+			np := 0
+			if r.i < len(r.t) && r.t[r.i] == "n" {
+				r.next()
+				f.nilProps = true
+			} else {
+				np = r.int()
+			}
 			f.props = make([]c03Prop, np)
 			for k := range f.props {
 				f.props[k].key = c03UnH(r.next())
@@ -257,7 +302,11 @@ func c03ShowLayers(ls []c03Layer) string {
 	for _, l := range ls {
 		fmt.Fprintf(&sb, " %s %d %d %d", c03H(l.name), l.version, l.extent, len(l.feats))
 		for _, f := range l.feats {
-			sb.WriteString(" " + f.id + " " + gs(f.geom) + " " + strconv.Itoa(len(f.props)))
+			np := strconv.Itoa(len(f.props))
+			if f.nilProps && len(f.props) == 0 {
+				np = "n"
+			}
+			sb.WriteString(" " + f.id + " " + gs(f.geom) + " " + np)
 			for _, p := range f.props {
 				sb.WriteString(" " + c03H(p.key) + " " + p.tok)
 			}
@@ -299,6 +348,9 @@ func c03Build(ls []c03Layer, variant int) mvt.Layers {
 				}
 			}
 			gf.Properties = props
+			if f.nilProps && n == 0 {
+				gf.Properties = nil
+			}
 			fs[j] = gf
 		}
 		out[i] = &mvt.Layer{Name: l.name, Version: l.version, Extent: l.extent, Features: fs}
@@ -480,6 +532,8 @@ func runC03(op string, in []string) string {
 		return c03RunWire(in)
 	case "wireh":
 		return c03RunWireH(in)
+	case "rawstr":
+		return c03RunRawStr(in)
 	}
 	return "badop"
 }
@@ -524,10 +578,18 @@ func c03RunRT(in []string) string {
 	out += " ; VT " + c03ShowVT(&vt)
 	u := guard(func() string { l, err := mvt.Unmarshal(data); return c03Outcome(l, err) })
 	out += " ; U " + u
+	gzDet := true
 	g := guard(func() string {
 		gz, c := c03Marshal(ls, 0, true)
 		if c != "ok" {
 			return "marshalgz-" + c
+		}
+		// MarshalGzipped must be as deterministic as Marshal (other map orders, same bytes)
+		for v := 1; v <= 2; v++ {
+			gz2, c2 := c03Marshal(ls, v, true)
+			if c2 != c || !bytes.Equal(gz2, gz) {
+				gzDet = false
+			}
 		}
 		l, err := mvt.UnmarshalGzipped(gz)
 		return c03Outcome(l, err)
@@ -535,7 +597,66 @@ func c03RunRT(in []string) string {
 	if g == u {
 		g = "same"
 	}
+	if det && !gzDet {
+		out = strings.Replace(out, " ; D 1", " ; D g", 1)
+	}
 	return out + " ; G " + g
+}
+
+// c03RunRawStr: layer name, key and string value as raw bytes (possibly not UTF-8).
+func c03RunRawStr(in []string) string {
+	if len(in) != 3 {
+		return "badinput"
+	}
+	var name, key, val string
+	if bad := guard(func() string { name, key, val = c03UnH(in[0]), c03UnH(in[1]), c03UnH(in[2]); return "" }); bad != "" {
+		return "badinput"
+	}
+	build := func() mvt.Layers {
+		f := geojson.NewFeature(orb.Point{1, 2})
+		f.Properties = geojson.Properties{key: val, "z" + key: val + "z"}
+		return mvt.Layers{&mvt.Layer{Name: name, Version: 2, Extent: 4096, Features: []*geojson.Feature{f}}}
+	}
+	show := func(ls mvt.Layers) string {
+		if len(ls) != 1 || len(ls[0].Features) != 1 || len(ls[0].Features[0].Properties) != 2 {
+			return "shape - - -"
+		}
+		for k, v := range ls[0].Features[0].Properties {
+			if s, ok := v.(string); ok && k == key {
+				if z, ok := ls[0].Features[0].Properties["z"+key].(string); !ok || z != val+"z" {
+					return "second - - -"
+				}
+				return "ok " + c03H(ls[0].Name) + " " + c03H(k) + " " + c03H(s)
+			}
+		}
+		return "nokey - - -"
+	}
+	return guard(func() string {
+		data, err := mvt.Marshal(build())
+		if err != nil {
+			return "err:" + c03ErrClass(err) + " - - - - 1"
+		}
+		det := true
+		for i := 0; i < 3; i++ {
+			d2, err := mvt.Marshal(build())
+			if err != nil || !bytes.Equal(d2, data) {
+				det = false
+			}
+		}
+		ls, err := mvt.Unmarshal(data)
+		if err != nil {
+			return "err:" + c03ErrClass(err) + " - - - - " + b2s(det)
+		}
+		out := show(ls)
+		gz, err := mvt.MarshalGzipped(build())
+		g := "gzdiff"
+		if err == nil {
+			if lg, err := mvt.UnmarshalGzipped(gz); err == nil && show(lg) == out {
+				g = "same"
+			}
+		}
+		return out + " " + g + " " + b2s(det)
+	})
 }
 
 // ---------------------------------------------------------------- generators (round trip)
@@ -580,15 +701,30 @@ var c03F64Pool = []uint64{
 	0x0000000000000000, 0x3ff0000000000000, 0xbff0000000000000, 0x4000000000000000, 0x3fe0000000000000,
 	0x7ff0000000000000, 0xfff0000000000000, 0x7ff8000000000000, 0x0000000000000001, 0x7fefffffffffffff,
 	0x4340000000000000, 0x4340000000000001, 0x3ff0000000000001,
+	0xfff8000000000000, 0x7ff0000000000001, 0x7fffffffffffffff, 0xfff80fc000000000, // NaNs with sign / payload: kept bit for bit
 }
-var c03F32Pool = []uint32{0x00000000, 0x3f800000, 0xbf800000, 0x40000000, 0x7f800000, 0xff800000, 0x7fc00000, 0x00000001, 0x7f7fffff, 0x3f800001}
+var c03F32Pool = []uint32{0x00000000, 0x3f800000, 0xbf800000, 0x40000000, 0x7f800000, 0xff800000, 0x7fc00000, 0x00000001, 0x7f7fffff, 0x3f800001,
+	// NaNs with a sign, a payload, signalling: float64(float32) keeps sign and payload (<< 29) and sets the quiet bit
+	0xffc00000, 0x7f800001, 0xff800001, 0x7fffffff, 0xff807e00, 0x7fa00000, 0x7fc00001, 0x007fffff, 0x00800000}
 
-var c03Words = []string{"", "a", "b", "name", "null", "true", "1", "k k", "é", "class", "[1,2]", "id", "z", "Name", "NAME", "A", "B", "Class"}
+var c03Words = []string{"", "a", "b", "name", "null", "true", "1", "k k", "é", "class", "[1,2]", "id", "z", "Name", "NAME", "A", "B", "Class", "[]", "{}", "17"}
 
 func c03JSON(r *rand.Rand) string {
 	var v interface{}
 	shape := "any"
-	switch r.Intn(7) {
+	switch r.Intn(11) {
+	case 7:
+		// the JSON text "[1,2]" is also a string value of c03Words: both share one table entry
+		v, shape = []int{1, 2}, "ints"
+	case 8:
+		return "j:nilints:" + c03H("null") // typed nil slice: json.Marshal gives "null", shared with nil and "null"
+	case 9:
+		if r.Intn(2) == 0 {
+			return "j:nilstrs:" + c03H("null")
+		}
+		return "j:nilmapf:" + c03H("null")
+	case 10:
+		v, shape = []string{}, "strs" // "[]", also a string value of c03Words
 	case 0:
 		v = []interface{}{}
 	case 1:
@@ -649,6 +785,13 @@ func c03PVal(r *rand.Rand, wf bool) string {
 	case 12:
 		return "jbad"
 	case 13:
+		if r.Intn(2) == 0 {
+			// a comparable fmt.Stringer: its own table entry even when the text equals a string value
+			if r.Intn(3) == 0 {
+				return "str:2:" + c03H(strconv.Itoa(r.Intn(40)-3))
+			}
+			return "str:" + strconv.Itoa(r.Intn(2)) + ":" + c03H(c03Words[r.Intn(len(c03Words))])
+		}
 		return "x:" + strconv.Itoa(r.Intn(3))
 	default:
 		if r.Intn(2) == 0 {
@@ -913,6 +1056,9 @@ func c03GenLayers(r *rand.Rand, wf bool) []c03Layer {
 			f := &l.feats[j]
 			f.id = c03IDTok(r, wf)
 			f.props = c03Props(r, wf)
+			if len(f.props) == 0 && r.Intn(2) == 0 {
+				f.nilProps = true
+			}
 			switch {
 			case wf && r.Intn(10) == 0:
 				f.geom = nil
@@ -1015,6 +1161,85 @@ func c03Fixed() [][]c03Layer {
 		c03Prop{"big", "i:int64:-9223372036854775808"}, c03Prop{"ubig", "u:uint64:18446744073709551615"},
 		c03Prop{"odd", "u:uint64:9007199254740993"}, c03Prop{"nan", "f64:7ff8000000000000"}, c03Prop{"nan2", "f64:7ff8000000000000"})
 	out = append(out, c03One("kinds", orb.Point{1, 1}, all...))
+	// --- review round 1 ---
+	// a JSON text equal to an existing string value shares its table entry (both orders, two features)
+	j12 := "j:ints:" + c03H("[1,2]")
+	s12 := "s:" + c03H("[1,2]")
+	out = append(out,
+		c03One("jt", orb.Point{1, 1}, c03Prop{"a", s12}, c03Prop{"b", j12}),
+		c03One("jt", orb.Point{1, 1}, c03Prop{"a", j12}, c03Prop{"b", s12}),
+		[]c03Layer{{name: "jt", version: 2, extent: 4096, feats: []c03Feat{
+			{id: "-", geom: orb.Point{1, 1}, props: []c03Prop{{"a", j12}, {"n", "nil"}}},
+			{id: "-", geom: orb.Point{2, 2}, props: []c03Prop{{"a", s12}, {"n", "s:" + c03H("null")}, {"m", "j:nilints:" + c03H("null")}, {"o", "j:nilmapf:" + c03H("null")}}}}}},
+		c03One("tn", orb.Point{1, 1}, c03Prop{"a", "j:nilints:" + c03H("null")}, c03Prop{"b", "nil"}, c03Prop{"c", "j:nilstrs:" + c03H("null")}),
+	)
+	// key / value table indexes >= 16 and >= 128 (two-byte tag varints) re-used by a second and third feature
+	for _, n := range []int{20, 40, 130, 300} {
+		var p1, p2, p3 []c03Prop
+		for i := 0; i < n; i++ {
+			k := fmt.Sprintf("k%03d", i)
+			p1 = append(p1, c03Prop{k, fmt.Sprintf("i:int:%d", 1000+i)})
+			p2 = append(p2, c03Prop{k, fmt.Sprintf("i:int:%d", 1000+(i*7+3)%n)}) // same keys, the values permuted
+			if i%3 != 0 {
+				p3 = append(p3, c03Prop{k, fmt.Sprintf("i:int:%d", 1000+(n-1-i))})
+			}
+		}
+		p3 = append(p3, c03Prop{"zz", "s:" + c03H("new")})
+		out = append(out, []c03Layer{{name: "many", version: 2, extent: 4096, feats: []c03Feat{
+			{id: "-", geom: orb.Point{1, 1}, props: p1},
+			{id: "-", geom: orb.Point{2, 2}, props: p2},
+			{id: "-", geom: orb.Point{3, 3}, props: p3}}}})
+	}
+	// comparable fmt.Stringer values: own entries, not shared with the equal string / between types
+	sx := c03H("x")
+	out = append(out,
+		c03One("str", orb.Point{1, 1}, c03Prop{"a", "str:0:" + sx}, c03Prop{"b", "s:" + sx}, c03Prop{"c", "str:1:" + sx}, c03Prop{"d", "str:0:" + sx}),
+		c03One("str", orb.Point{1, 1}, c03Prop{"a", "str:2:" + c03H("17")}, c03Prop{"b", "i:int:17"}, c03Prop{"c", "s:" + c03H("17")}, c03Prop{"d", "str:2:" + c03H("17")}),
+	)
+	// a nil Properties map; a lone negative zero of each float type (bit-exact); −0 next to +0 of the OTHER type
+	out = append(out,
+		[]c03Layer{{name: "np", version: 2, extent: 4096, feats: []c03Feat{{id: "-", geom: orb.Point{1, 1}, nilProps: true}, {id: "i:int:3", geom: orb.LineString{{0, 0}, {1, 1}}, nilProps: true}}}},
+		c03One("lz", orb.Point{1, 1}, c03Prop{"a", nz32}),
+		c03One("lz", orb.Point{1, 1}, c03Prop{"a", nz}, c03Prop{"b", z32}, c03Prop{"c", nz}),
+		[]c03Layer{
+			{name: "lz1", version: 1, extent: 4096, feats: []c03Feat{{id: "-", geom: orb.Point{1, 1}, props: []c03Prop{{"a", nz}}}}},
+			{name: "lz2", version: 1, extent: 4096, feats: []c03Feat{{id: "-", geom: orb.Point{1, 1}, props: []c03Prop{{"a", z}}}}}},
+	)
+	// float32 NaNs with sign / payload / signalling bit, float64 NaNs with payload
+	var nans []c03Prop
+	for i, b := range []uint32{0x7fc00000, 0xffc00000, 0x7f800001, 0xff800001, 0x7fffffff, 0xff807e00, 0x7fa00000} {
+		nans = append(nans, c03Prop{fmt.Sprintf("n%d", i), fmt.Sprintf("f32:%08x", b)})
+	}
+	for i, b := range []uint64{0xfff8000000000000, 0x7ff0000000000001, 0x7fffffffffffffff, 0x7ff8000020000000} {
+		nans = append(nans, c03Prop{fmt.Sprintf("d%d", i), fmt.Sprintf("f64:%016x", b)})
+	}
+	out = append(out, c03One("nan", orb.Point{1, 1}, nans...))
+	// ids at and above 2^53: Unmarshal returns float64(id)
+	for _, id := range []string{"u:uint64:9007199254740992", "u:uint64:9007199254740993", "i:int64:9007199254740993", "u:uint64:9007199254740995",
+		"u:uint64:1152921504606846976", "u:uint64:18446744073709551615", "i:int64:9223372036854775807"} {
+		ls := c03One("bigid", orb.Point{1, 2})
+		ls[0].feats[0].id = id
+		out = append(out, ls)
+	}
+	// rings with fractional coordinates: Closed() is decided on the float64 points, the command
+	// words are built from the int32 truncations (open as floats, closed after truncation; and the reverse order)
+	out = append(out,
+		c03One("fr", orb.Ring{{0.5, 0}, {4, 0}, {4, 4}, {0, 0}}),
+		c03One("fr", orb.Ring{{0, 0}, {4, 0}, {4, 4}, {0.5, 0.25}}),
+		c03One("fr", orb.Polygon{{{0.5, 0}, {4, 0}, {4, 4}, {0, 0}}, {{1, 1}, {1, 2}, {2, 2}, {1.75, 1.5}}}),
+		c03One("fr", orb.MultiPolygon{{{{-0.5, 0}, {4, 0}, {4, 4}, {0, 4}, {0.5, -0.5}}}, {{{10, 10}, {15, 10}, {10, 15}, {10, 10}}}}),
+		c03One("fr", orb.Ring{{0.5, 0}, {4, 0}, {4, 4}, {0.5, 0}}),
+		c03One("fr", orb.Ring{{0.5, 0}, {4, 0}, {0, 0}}),
+		c03One("fr", orb.Collection{orb.Ring{{0.5, 0}, {4, 0}, {4, 4}, {0, 0}}}),
+		c03One("fr", orb.Point{1.5, 2.5}),
+		c03One("fr", orb.LineString{{-0.5, 0.5}, {2.75, -3.25}}),
+	)
+	// nested collections: in the quantifier's reading every leaf is a member
+	out = append(out,
+		c03One("cn", orb.Collection{orb.Point{1, 2}, orb.Collection{orb.LineString{{0, 0}, {3, 4}}}}),
+		c03One("cn", orb.Collection{orb.Collection{}}),
+		c03One("cn", orb.Collection{orb.Collection{orb.Collection{orb.Point{1, 2}}}}),
+	)
 	return out
 }
 
@@ -1749,8 +1974,26 @@ func c03WireCrafted(r *rand.Rand) [][]byte {
 		w.b = append(w.b, layer(feat(nil), val(), nil)...)
 		out = append(out, w.b)
 	}
-	// gzip magic in front of a failing / a succeeding scan
+	// gzip magic in front of a failing scan
 	out = append(out, []byte{0x1f, 0x8b, 0x08}, []byte{0x1f, 0x8b}, append([]byte{0x1f, 0x8b, 0x01}, base()...))
+	// gzip magic and a SUCCEEDING scan: 0x1f is the key (field 3, wire type 7 - never inspected), 8b 00 the
+	// non-minimal length 11; the layer then (a) has a feature without geometry (decode error -> ErrDataIsGZipped),
+	// (b) has no feature (success, the magic is ignored), (c) has a point feature (success)
+	out = append(out,
+		[]byte{0x1f, 0x8b, 0x00, 0x12, 0x02, 0x18, 0x01, 0x28, 0x80, 0x20, 0x78, 0x02, 0x0a, 0x00},
+		[]byte{0x1f, 0x8b, 0x00, 0x0a, 0x01, 0x61, 0x28, 0x80, 0x20, 0x78, 0x02, 0x1a, 0x01, 0x6b},
+		[]byte{0x1f, 0x8b, 0x00, 0x12, 0x07, 0x18, 0x01, 0x22, 0x03, 0x09, 0x04, 0x06, 0x78, 0x02},
+		// the same three without the magic (key 0x1a): the error class is the decoder's own
+		[]byte{0x1a, 0x8b, 0x00, 0x12, 0x02, 0x18, 0x01, 0x28, 0x80, 0x20, 0x78, 0x02, 0x0a, 0x00},
+		[]byte{0x1a, 0x8b, 0x00, 0x0a, 0x01, 0x61, 0x28, 0x80, 0x20, 0x78, 0x02, 0x1a, 0x01, 0x6b},
+		// only ONE of the two magic bytes, scan succeeds, decode error: the decoder's own class
+		[]byte{0x1f, 0x0b, 0x12, 0x02, 0x18, 0x01, 0x28, 0x80, 0x20, 0x78, 0x02, 0x0a, 0x00},
+		[]byte{0x1f, 0x8a, 0x00, 0x12, 0x02, 0x18, 0x01, 0x28, 0x80, 0x20, 0x78, 0x02, 0x0a, 0x00}[:13],
+		[]byte{0x1f, 0x8a}, []byte{0x1f}, []byte{0x8b, 0x1f}, []byte{0x1f, 0x00, 0x8b},
+		// magic, scan succeeds, odd tags (ueof -> gzipped); magic, unknown geometry type
+		[]byte{0x1f, 0x8b, 0x00, 0x12, 0x09, 0x12, 0x01, 0x00, 0x18, 0x01, 0x22, 0x02, 0x09, 0x04},
+		[]byte{0x1f, 0x8b, 0x00, 0x12, 0x07, 0x18, 0x09, 0x22, 0x03, 0x09, 0x04, 0x06, 0x78, 0x02},
+	)
 	return out
 }
 
@@ -1820,6 +2063,15 @@ func genC03Wire(c *Ctx) {
 	if c.Mine(0) {
 		for _, b := range c03WireCrafted(r) {
 			c.Case("wireh", hexOrEmptyMVT(b))
+		}
+		// names / keys / string values that are not UTF-8 (Go strings are byte strings; proto3's
+		// UTF-8 check does not apply to this proto2 schema): the property clause without a model
+		raws := []string{"", "a", "é", "\xff", "\xc3", "\xff\xfe", "a\x80b", "\xed\xa0\x80", "\xf8\x88\x80\x80\x80", "\x00", "x\x00\xffy", strings.Repeat("\xfe", 130)}
+		for i, a := range raws {
+			for _, j := range []int{0, 1, 5} {
+				b, d := raws[(i+j)%len(raws)], raws[(i+2*j+3)%len(raws)]
+				c.Case("rawstr", c03H(a)+" "+c03H(b)+" "+c03H(d))
+			}
 		}
 	}
 	for i := 0; i < c.Budget/2 && !c.Exhausted(); i++ {
